@@ -75,7 +75,7 @@ for _m in (gc, gu):
 
 DRIVERS = ("c04",)
 MODEL_TARGETS = ["Model/Cnf.vo", "Model/Color.vo"]
-TARGETS = ["Proofs/CnfFacts.vo", "Proofs/ColorFacts.vo", "Proofs/ColorCount.vo"]
+TARGETS = ["Proofs/CnfFacts.vo"]
 LEVEL = "proof"
 TRUST = [
     "SAT solver (glucose3 through pysat.solvers.Solver): Section variables solve/get_model/enum_models of Proofs/ColorFacts.v with the contract "
@@ -636,7 +636,6 @@ def cardenc_contract(ctx):
     for _ in range(12):
         k = int(rng.integers(1, 8))
         tests.append([int(x) for x in rng.integers(1, 60, size=k)])
-    lines = [f"card {ser_list(t)}".replace(" ".join(map(str, t)), " ".join(hx(x) for x in t)) for t in tests]
     lines = ["card " + str(len(t)) + " " + " ".join(hx(x) for x in t) for t in tests]
     outs = run_driver(ctx.exe["c04"], lines)
     for t, o in zip(tests, outs):
@@ -644,7 +643,7 @@ def cardenc_contract(ctx):
         vp = IDPool(start_from=top)
         enc = CardEnc.equals(lits=t, bound=1, vpool=vp, encoding=EncType.pairwise)
         ctx.res.traces += 1
-        if [list(c) for c in enc.clauses] != parse_cnf(o["cnf"]) or vp.top != top - 1 and vp.top != top:
+        if [list(c) for c in enc.clauses] != parse_cnf(o["cnf"]) or vp.top != top - 1:
             ctx.k_mismatch(f"CardEnc contract: pysat gives {enc.clauses} (vpool.top {vp.top}), model equals1 gives {parse_cnf(o['cnf'])}", {"lits": t})
         if any(abs(x) not in t for c in enc.clauses for x in c):
             ctx.k_mismatch(f"CardEnc contract: auxiliary variables in {enc.clauses}", {"lits": t})
